@@ -40,6 +40,8 @@ class Gen:
         self.rec_done = {}       # rec consumer -> inner nodes of its subgraph
         self.dec_after_rec = set()
         self.unnamed_deciders = set()
+        self.free_cases = []
+        self.done = set()
         self.last_sub = []
 
     def new_node(self, **kw):
@@ -55,6 +57,7 @@ class Gen:
 
     def finish(self, node):
         self.order.append(node['id'])
+        self.done.add(node['id'])
 
     # -- behaviours ----------------------------------------------------------------------
     def decorate(self, node, allow_fail=True, force_fail=None):
@@ -88,7 +91,13 @@ class Gen:
     def shareable(self, visible, in_rec):
         out = []
         lazy_ok = self.rng.random() < self.p.get('p_share_lazy', 0.15)
-        for nid in visible:
+        pool = list(visible)
+        if lazy_ok:
+            # finished case nodes of switches anywhere below (outside candidates / recurrent subgraphs): e.g.
+            # Y(a: Input(C), b: Input(X)) with X(v: SwitchCase(..., C)) - the case is also consumed by a
+            # descendant of the switch consumer
+            pool += [c for c in self.free_cases if c not in pool and c in self.done]
+        for nid in pool:
             f = self.flags[nid]
             if f & {'private_rec', 'dest'}:
                 continue
@@ -189,6 +198,8 @@ class Gen:
             c = self.make(list(visible), depth - 1, in_rec=in_rec, in_cand=in_cand, role='case')
             cases.append([lab, c])
             visible.append(c)
+            if not in_rec and not in_cand and after_rec is None:
+                self.free_cases.append(c)
             if after_rec is not None and rng.random() < 0.7:
                 # the case sub-pipeline starts only after the recurrent result exists (decider depends on
                 # it) and reads a node inside the subgraph
